@@ -217,8 +217,7 @@ Proof.
   - apply til_assert_done.
   - apply til_catch; assumption.
   - destruct abort; [apply til_never; intros s tr s' a H; discriminate|].
-    intros s tr s' a H. injection H as <- _ _. destruct e; try (right; reflexivity).
-    left. eexists. apply t_vwarn. constructor.
+    intros s tr s' a H. injection H as <- _ _. right. reflexivity.
 Qed.
 
 Theorem tiles_dec_root T abort r : tiles (dec_root T abort r).
